@@ -8,6 +8,7 @@ import (
 
 	"golang.org/x/tools/go/ssa"
 
+	"verif/internal/smt"
 	"verif/internal/term"
 )
 
@@ -1111,7 +1112,29 @@ func (e *Engine) elemConts(st *State, s *SliceV, i *term.Term, in ssa.Instructio
 	panic(unsupported(fmt.Sprintf("symbolic index into %T at %s", arr, e.pos(in))))
 }
 
+// uniqueValue asks the solver whether t can take only one value on this path.
+func (e *Engine) uniqueValue(st *State, t *term.Term) (uint64, bool) {
+	pc := st.pcTerm()
+	ans := e.Solver.Check(smt.Query{Asserts: []*term.Term{pc}, Values: []*term.Term{t}})
+	if ans.Res != smt.Sat {
+		return 0, false
+	}
+	v := ans.Values[0]
+	a2 := e.Solver.Check(smt.Query{Asserts: []*term.Term{pc, term.Not(term.Eq(t, term.Const(t.W, v)))}})
+	if a2.Res != smt.Unsat {
+		return 0, false
+	}
+	return v, true
+}
+
 func (e *Engine) runConts(st *State, s *SliceV, idx *term.Term, el []Value, big *BigArrV) []cont {
+	if big == nil && len(el) > 8 {
+		// a table lookup whose index is pinned by the path condition (e.g. an opcode fixed by an assumption)
+		if v, ok := e.uniqueValue(st, idx); ok && int(v) < len(el) {
+			st.assume(term.Eq(idx, term.Const(idx.W, v)))
+			return one(st, s.Base.child(Step{Idx: int(v)}))
+		}
+	}
 	var starts []int
 	if big != nil && big.runs != nil {
 		starts = big.runs
